@@ -128,6 +128,19 @@ def fromBytes (t : Tup) (signed : Bool) : Int :=
   | [] => 0
   | b :: _ => if signed && decide (b ≥ 128) then u - (256 : Int) ^ t.length else u
 
+/-- the decoder asking its substrate for `n` octets (`for x in readFromStream(substrate, n, options): …`) when the
+    substrate is the complete input `t` and `pos` octets have been consumed: the next `n` octets, or - fewer are left -
+    the `SubstrateUnderrunError` a one-shot decoder raises for the underrun the item decoder hands out -/
+def readN (t : Tup) (pos n : Int) : M Tup :=
+  if pos.toNat + n.toNat ≤ t.length then pure ((t.drop pos.toNat).take n.toNat)
+  else throw (.lib "SubstrateUnderrunError")
+
+/-- `ord(b)` of a bytes object given as the tuple of its octets: defined on exactly one octet (TypeError otherwise) -/
+def ord (t : Tup) : M Int :=
+  match t with
+  | [x] => pure x
+  | _ => throw (.lib "TypeError")
+
 /-- `a and b`, `a or b` on ints (value semantics) -/
 def andI (a b : Int) : Int := if a != 0 then b else a
 def orI (a b : Int) : Int := if a != 0 then a else b
